@@ -154,6 +154,46 @@ def dispatch_cases(ctx, PackedTensor):
                     pass
                 except Exception as e:  # noqa
                     bad.append({"op": "to_float32", "bits": bits, "got": exc_name(e), "want": "ValueError"})
+    # two packed operands: the result must be the one of the unpacked values.  Pairs are chosen so that the *payloads*
+    # coincide or nearly do while the logical tensors differ (leading dimensions with the same number of payload rows,
+    # the extra rows zero), next to ordinary same-shape pairs
+    bops = {
+        "equal2": lambda a, b: torch.tensor(torch.equal(a, b)),
+        "eq2": lambda a, b: a == b,
+        "add2": lambda a, b: a + b,
+        "maximum2": lambda a, b: torch.maximum(a, b),
+        "cat2": lambda a, b: torch.cat([a, b]),
+    }
+    for bits in (2, 4):
+        per = 8 // bits
+        for R in (1, 2, 3, 5, 7, 8):
+            for trail in ([], [3], [2, 2]):
+                t = rand_uint(rng, [R] + trail, bits)
+                pairs = [("same-shape", rand_uint(rng, [R] + trail, bits)), ("same-values", t.clone())]
+                for R2 in range(R + 1, ((R + per - 1) // per) * per + 1):
+                    t2 = torch.zeros([R2] + trail, dtype=t.dtype)
+                    t2[:R] = t
+                    pairs.append(("zero-padded-same-payload", t2))
+                for kind, t2 in pairs:
+                    pa, pb = PackedTensor.pack(t, bits), PackedTensor.pack(t2, bits)
+                    ra, rb = pa.unpack(), pb.unpack()
+                    for name, f in bops.items():
+                        for (x, y, rx, ry, order) in ((pa, pb, ra, rb, "ab"), (pb, pa, rb, ra, "ba")):
+                            n += 1
+                            try:
+                                a = f(x, y)
+                            except Exception as e:  # noqa
+                                a = "raise:" + exc_name(e)
+                            try:
+                                b = f(rx, ry)
+                            except Exception as e:  # noqa
+                                b = "raise:" + exc_name(e)
+                            same = (isinstance(a, str) and a == b) or (isinstance(a, torch.Tensor) and isinstance(b, torch.Tensor) and not isinstance(a, PackedTensor)
+                                                                        and a.shape == b.shape and a.dtype == b.dtype and torch.equal(torch.as_tensor(a), torch.as_tensor(b)))
+                            ctx.count(f"dispatch:{name}:{kind}")
+                            if not same:
+                                bad.append({"op": name, "bits": bits, "shape": [R] + trail, "other_shape": list(t2.shape), "pair": kind, "order": order,
+                                            "got": str(a)[:200], "want": str(b)[:200]})
     return n, bad
 
 
